@@ -95,8 +95,10 @@ def replay_dir(cexdir):
     if race:
         # once both goroutines are released the detector normally reports at the second access; if the process
         # dies first for another reason (e.g. a panic further down the same schedule) the run is repeated
+        # ... and on a loaded machine the two released goroutines may be scheduled so far apart that the detector's
+        # shadow state of the first access is gone: a silent run is repeated as well
         for _ in range(3):
-            if "WARNING: DATA RACE" in out or not ("panic:" in out or "fatal error:" in out):
+            if "WARNING: DATA RACE" in out:
                 break
             res, msg, out = run_replay(cexdir, race=race)
     if res is None and not out:
